@@ -1,9 +1,11 @@
 (* C07 — sequence numbers persist across connections and reset only when agreed.  Statements only.
    Proved: the disconnect frame lemmas (with and without ResetOnDisconnect), the acceptor connect frame, and that the
    expected inbound number never moves backwards except through a store reset, for every event list (from C01).
-   The reset-on-Logon clauses and the initiator connect frame are evaluated on every trace by c07_check (`_partial`). *)
+   Trace level: the disconnect clauses (701/706) and the connect clauses (702/703: a connect changes nothing beyond the
+   Logon an initiator sends; a Logon that resets is number 1 with the counters at 2/1) never fail on any model trace.
+   The received-reset-Logon clauses (704/705/707/709) are evaluated on every trace by c07_check (`_partial`). *)
 From Coq Require Import ZArith List Bool.
-From QF Require Import Base.Bytes Session.Types Session.Model Session.Spec Session.LocalProofs Session.C01Proofs Session.FrameProofs Session.TraceProofs.
+From QF Require Import Base.Bytes Session.Types Session.Model Session.Spec Session.LocalProofs Session.C01Proofs Session.FrameProofs Session.TraceProofs Session.ConnectProofs.
 Import ListNotations.
 Open Scope Z_scope.
 
@@ -44,3 +46,20 @@ Proof. exact c07_disconnect_never_fails. Qed.
 (* the configuration of a session never changes *)
 Theorem c07_configuration_constant : forall c0 s e, s_cfg s = c0 -> s_cfg (step s e) = c0.
 Proof. exact step_cfg. Qed.
+
+(* TRACE LEVEL.  For every configuration and every event list the connect clauses of c07_check never fail on the model's
+   trace: 702 a connect (while connected, as acceptor, or as initiator without a reset) changes nothing in the store beyond
+   the number its Logon takes; 703 a Logon sent with ResetSeqNumFlag=Y or under ResetOnLogon is number 1 and leaves the
+   counters at 2 / 1. *)
+Theorem c07_connect_clauses_hold_on_every_trace : forall c es,
+  free_of [702; 703] (c07_check c (combine es (map obs_of (run_trace es (init_sess c))))) = true.
+Proof. exact c07_connect_never_fails. Qed.
+
+(* the Logon an initiator sends on connect, from any state *)
+Theorem c07_initiator_connect : forall s, is_connected (s_st s) = false -> c_role (s_cfg s) = Initiator ->
+  let s' := step s EConnect in
+  exists lg, rev (s_wire s') = [lg] /\ o_type lg = T_LOGON /\
+    if logon_resets lg || c_reset_on_logon (s_cfg s)
+    then o_seq lg = 1 /\ s_snd s' = 2 /\ s_tgt s' = 1
+    else o_seq lg = s_snd s /\ s_snd s' = s_snd s + 1 /\ s_tgt s' = s_tgt s /\ has_reset (rev (s_cbs s')) = false.
+Proof. exact initiator_connect_general. Qed.
